@@ -130,9 +130,9 @@ def run_proofs(res, cfg):
         if "depends on axioms" not in out2 and "does not depend on any axioms" not in out2:
             rc2, out2 = sh(["lake", "env", "lean", apath], cwd=LEAN, timeout=1800)
         got = {}
-        for m in re.finditer(r"'([^']+)' depends on axioms: \[([^\]]*)\]", out2):
+        for m in re.finditer(r"'(\S+?)' depends on axioms: \[([^\]]*)\]", out2):
             got[m.group(1)] = {a.strip() for a in m.group(2).replace("\n", " ").split(",") if a.strip()}
-        for m in re.finditer(r"'([^']+)' does not depend on any axioms", out2):
+        for m in re.finditer(r"'(\S+?)' does not depend on any axioms", out2):
             got[m.group(1)] = set()
         for w in wanted:
             full = [k for k in got if k == w or k.endswith("." + w)]
